@@ -343,6 +343,58 @@ class Facts:
             self.mir.setdefault(m["def_path"], []).append(m)
         self.adts = {a["path"]: a for a in self.lib["adts"]}
         self.impls = self.lib["impls"]
+        self.helpers = set()   # def-paths of later-extracted helper functions whose bodies are attached to their call sites
+        self._graft_helpers()
+
+    def _graft_helpers(self):
+        """Helper transparency for the HIR-level rules: at every call of a crate-local function that did not exist when the rules were written
+        (rules/known_functions.txt) the callee's body is attached to the call node under the key `inlined`, so that every walker sees the
+        helper's code where it is called.  Recursive helpers are not grafted."""
+        try:
+            kp = os.path.join(os.path.dirname(os.path.abspath(__file__)), "known_functions.txt")
+            with open(kp) as fh:
+                known = {l.strip() for l in fh if l.strip() and not l.startswith("#")}
+        except OSError:
+            return
+        new = {dp: bs[0] for dp, bs in self.bodies.items() if dp not in known and len(bs) == 1 and bs[0].get("kind") in ("Fn", "AssocFn") and "{" not in dp}
+        if not new:
+            return
+        # call edges among the new helpers (to refuse cycles)
+        calls = {}
+        for dp, b in new.items():
+            calls[dp] = {callee(n) for n in walk(b["body"]) if n.get("k") in ("Call", "MethodCall")} & set(new)
+
+        def cyclic(dp, seen=()):
+            if dp in seen:
+                return True
+            return any(cyclic(c, seen + (dp,)) for c in calls.get(dp, ()))
+        ok = {dp for dp in new if not cyclic(dp)}
+        self.helpers = ok
+        import copy
+
+        def graft_into(root, owner):
+            for n in list(walk(root)):
+                if n.get("k") in ("Call", "MethodCall") and "inlined" not in n:
+                    c = callee(n)
+                    if c in ok and c != owner:
+                        n["inlined"] = copy.deepcopy(new[c]["body"])   # one copy per call site (parent maps are keyed by node identity)
+        # callees first, so that a copied helper body already carries the bodies of the helpers it calls
+        done = set()
+
+        def visit(dp):
+            if dp in done:
+                return
+            done.add(dp)
+            for c in calls.get(dp, ()):
+                if c in ok:
+                    visit(c)
+            graft_into(new[dp]["body"], dp)
+        for dp in sorted(ok):
+            visit(dp)
+        for b in self.body_list:
+            if "::tests::" in b["def_path"] or b["def_path"] in ok:
+                continue
+            graft_into(b["body"], b["def_path"])
 
     # ---- anchors (fail closed)
     def fn(self, suffix, impl_self=None, impl_trait=None):
